@@ -247,6 +247,12 @@ Definition c02_obs_full (tv : list (str * str * str)) (tc : list (str * key)) (t
   bs "ALL=" ++ c02_obs tv tc tcc l files ++
   concat_str (map (fun st => bs ";S=" ++ c02_obs tv tc tcc (with_steps l [st]) files) (l_steps l)).
 
+(* loader observable: verdict of LoadLinksForLayout and, per step, the sorted key ids of the loaded map *)
+Definition c02_loaded (l : layout) (files : list (str * option env)) : str :=
+  bs "LOAD=" ++ (if is_ok (load_all l files) then bs "OK" else bs "REJECT") ++ bs ";KEYS=" ++
+  concat_str (map (fun st => [40] ++ s_name st ++ [58] ++ join [44] (ssort (akeys (load_name (s_name st) files))) ++ [41])
+                  (l_steps l)).
+
 (* compact constructors for the generated cases files *)
 Definition env_of (w : wrapper) (sigs : list signature) (tag : str) : env :=
   mkEnv w (PLink (mkLink [] [] [] [] [] [] [])) sigs tag.
